@@ -17,7 +17,7 @@
       stand for, and T3 reads "independent between particles, steps and directions, zero mean, variance
       2*D*dt per step and 2*D*t in total".  The harness checks it statistically (a test, not a proof).
       Float rounding is not modelled; the square root is handled as stated at each theorem.
-    AXIOMS: the theorems over R (T1 real forms, C11_cloud_variance) depend on the standard library's
+    AXIOMS: the theorems over R (T1 real forms, C11_cloud_variance_partial) depend on the standard library's
       axioms of the real numbers (shown by Print Assumptions); all others are closed under the global
       context. *)
 From Coq Require Import ZArith QArith List Bool Reals Qreals.
@@ -127,7 +127,20 @@ Theorem C11_draw_index_is_step_index : forall hon von ns k s d p, (s < length ns
 Proof. exact draw_index_step. Qed.
 Print Assumptions C11_draw_index_is_step_index.
 
-(** ** T3 — variance adds (L2 content of "independent, zero mean, variance 2*D*t") *)
+(** ** T3 — variance adds (L2 content of "independent, zero mean, variance 2*D*t").
+    FULL STATEMENT OF THE CLAUSE (not provable here, kept for reference):
+      on a probability space carrying the draws xi_0, xi_1, ... as independent N(0,1) random variables,
+      the diffusive displacements  dX(s,p,d) = c(s,p,d) * xi_{draw_index s d p}  are mutually
+      independent, E[dX(s,p,d)] = 0, Var[dX(s,p,d)] = c(s,p,d)^2 = 2*D*dt/dx^2 (2*Dz*dt in depth), and
+      Var[sum_{s<m} dX(s,p,d)] = 2*D*(m*dt)/dx^2.
+    PROVED (the theorems below, suffix _partial on the two headline ones): the same with
+      "E[xi_i*xi_j] = (i=j ? 1 : 0)" built into the inner product [ip] of coefficient vectors — i.e.
+      second moments / uncorrelatedness for every family of draws that is orthonormal in L2 —
+      together with T2 (different displacements read different draws; functions of disjoint sets of
+      independent variables are independent) and the linearity theorems of T1 (no constant term, so
+      zero mean).
+    MISSING: the probability space itself and the fact that numpy's generator realises such a family
+      (trusted; sampled statistically by the harness oracle). *)
 (** the draws are an orthonormal family for [ip] *)
 Theorem C11_draws_orthonormal : forall N i j, in_range N i = true -> in_range N j = true ->
   (ip N (draw i) (draw j) == if i =? j then 1 else 0)%Q.
@@ -136,12 +149,12 @@ Print Assumptions C11_draws_orthonormal.
 (** squared norm of the accumulated displacement of particle p, direction d over the first m steps
     (the particle is present and the direction switched on in each of them), coefficient [cf s] in
     step s, any N bounding the consumed part of the stream *)
-Theorem C11_variance_adds : forall hon von k ns d p (cf : nat -> Q) m N,
+Theorem C11_variance_adds_partial : forall hon von k ns d p (cf : nat -> Q) m N,
   nonneg_all ns = true -> 0 <= k -> cursor_after hon von k ns <= Z.of_nat N ->
   (forall s, (s < m)%nat -> exists i, draw_index hon von k ns s d p = Some i) ->
   (ip N (walk_vec hon von k ns d p cf m) (walk_vec hon von k ns d p cf m) == qsum (fun s => cf s * cf s) m)%Q.
 Proof. exact variance_adds_lemma. Qed.
-Print Assumptions C11_variance_adds.
+Print Assumptions C11_variance_adds_partial.
 (** constant coefficient: m * c^2 *)
 Theorem C11_variance_adds_const : forall hon von k ns d p (c : Q) m N,
   nonneg_all ns = true -> 0 <= k -> cursor_after hon von k ns <= Z.of_nat N ->
@@ -177,7 +190,7 @@ Proof. exact realize_walk. Qed.
 Print Assumptions C11_walk_is_model_displacement.
 (** T1 + T3 (real axioms): with W the plain sum of the draws particle p uses in direction d over m
     steps, the displacement c*W has squared norm c^2*|W|^2 = 2*D*(m*dt)/dx^2 *)
-Theorem C11_cloud_variance : forall hon von k ns d p m N (D dt dx : Q),
+Theorem C11_cloud_variance_partial : forall hon von k ns d p m N (D dt dx : Q),
   (0 <= D)%Q -> (0 < dt)%Q -> (0 < dx)%Q ->
   nonneg_all ns = true -> 0 <= k -> cursor_after hon von k ns <= Z.of_nat N ->
   (forall s, (s < m)%nat -> exists i, draw_index hon von k ns s d p = Some i) ->
@@ -185,7 +198,7 @@ Theorem C11_cloud_variance : forall hon von k ns d p m N (D dt dx : Q),
   let W := walk_vec hon von k ns d p (fun _ => 1%Q) m in
   (c ^ 2 * Q2R (ip N W W) = 2 * Q2R D * (INR m * Q2R dt) / (Q2R dx) ^ 2)%R.
 Proof. exact cloud_variance_lemma. Qed.
-Print Assumptions C11_cloud_variance.
+Print Assumptions C11_cloud_variance_partial.
 (** the hypothesis "particle present, direction on" of T3 is met by every particle of every step *)
 Theorem C11_every_particle_has_a_draw : forall hon von ns k s d p,
   (s < length ns)%nat -> 0 <= p < nth s ns 0 ->
